@@ -18,7 +18,7 @@ RULE = (
     "set_cell_style, set_cell_formatting, set_cell_border. Enumerated lane: iter_rows/iter_cols with every combination "
     "of min/max in {None,0,1,last-1,last,last+1,-1} on several table shapes, values_only on/off. Oracle: grid model; both "
     "notations hit the same cell (identity for cell(); same model transition for mutators); outside/negative/beyond-limit "
-    "raise IndexError and change nothing; in-limit writes grow to exactly (max(rows,r+1), max(cols,c+1)); iteration "
+    "raise IndexError and change nothing; a border call leaves a border on the addressed edge and on no other cell side of the table; in-limit writes grow to exactly (max(rows,r+1), max(cols,c+1)); iteration "
     "yields exactly the addressed rectangle in order, IndexError iff a given bound is outside the table. Non-trivial: "
     "position on a boundary or a falsy bound; distinct by (method, position class, notation) / bound tuple."
 )
@@ -103,6 +103,18 @@ class AddrExec(Exec):
                 a, b = vals[r][c], self.grid[r][c]
                 if not ((a is None and b is None) or (a is not None and b is not None and a == b and isinstance(a, bool) == isinstance(b, bool))):
                     self.fail(("value", where), f"{where}: cell ({r},{c}) is {a!r}, model {b!r}")
+        if getattr(self, "stroked", None) and rows * cols <= 1500:
+            # a border call touches the addressed edge and no other: every cell side carries a border exactly when its edge was addressed
+            data = t.rows()
+            for r in range(rows):
+                for c in range(cols):
+                    bd = data[r][c].border
+                    for side, key in (("top", ("h", r, c)), ("bottom", ("h", r + 1, c)), ("left", ("v", r, c)), ("right", ("v", r, c + 1))):
+                        has = getattr(bd, side) is not None
+                        if has != (key in self.stroked):
+                            self.fail(("border_elsewhere" if has else "border_missing", side), f"{where}: cell ({r},{c}).border.{side} is {'set' if has else 'None'}, "
+                                      f"the edge was {'never' if has else ''} addressed by a set_cell_border call")
+                            return
 
     def args_for(self, row, col, form):
         if form == "rc":
